@@ -21,6 +21,8 @@
 //!     N<s>:<nid>       AddNOC(node id nid; chain of the last accepted root, key of the last CSR)
 //!     U<s>:<nid>       UpdateNOC(node id nid; chain of the session fabric's root, key of the last CSR)
 //!     L<s>:<k>:<f>     write ACL := [admin, view(subject k)]; f = 1: the store (if any) fails
+//!     B<s>:<k>:<f>     UpdateFabricLabel("lab<k>", "" for k = 0); f as above
+//!     I<s>:<v>:<f>     SetVIDVerificationStatement(vendorID = 0xFFF0 + v); f as above
 //!     W<s>:<k>:<bc>    AddOrUpdateWiFiNetwork(ssid k, breadcrumb bc or -)
 //!     D<s>:<k>         RemoveNetwork(ssid k)
 //!     K<s>:<f>         CommissioningComplete; f = 0 no fault, 1 / 2 = its first / second store fails
@@ -249,6 +251,8 @@ enum Op {
     AddNoc(Sess, u64),
     UpdNoc(Sess, u64),
     AclW(Sess, u64, bool),
+    Label(Sess, u64, bool),
+    Vid(Sess, u64, bool),
     NetAdd(Sess, u64, Option<u64>),
     NetDel(Sess, u64),
     Complete(Sess, u8),
@@ -286,6 +290,8 @@ fn parse_op(t: &str) -> Op {
         'N' => Op::AddNoc(s, n(0)),
         'U' => Op::UpdNoc(s, n(0)),
         'L' => Op::AclW(s, n(0), n(1) == 1),
+        'B' => Op::Label(s, n(0), n(1) == 1),
+        'I' => Op::Vid(s, n(0), n(1) == 1),
         'W' => Op::NetAdd(s, n(0), if rest[1] == "-" { None } else { Some(n(1)) }),
         'D' => Op::NetDel(s, n(0)),
         'K' => Op::Complete(s, n(0) as u8),
@@ -419,13 +425,19 @@ fn fabric_str(base: &Base, ctl: &Ctl, f: &Fabric) -> String {
             }
         })
         .collect();
+    let label = match f.label() {
+        "" => "0".to_string(),
+        l => l.strip_prefix("lab").unwrap_or(l).to_string(),
+    };
     format!(
-        "{}:{}:{}:{}:{}",
+        "{}:{}:{}:{}:{}:{}:{}",
         f.fab_idx().get(),
         root_index(base, f.root_ca()),
         f.node_id(),
         key_index(base, ctl, f.noc()),
-        acl.join("+")
+        acl.join("+"),
+        label,
+        f.vendor_id()
     )
 }
 
@@ -546,6 +558,7 @@ fn noc_class(code: u64) -> String {
         5 => "tablefull".into(),
         6 => "invadmin".into(),
         9 => "conflict".into(),
+        10 => "labelconflict".into(),
         11 => "invfabidx".into(),
         n => format!("noc{}", n),
     }
@@ -783,7 +796,7 @@ fn run_incarnation(
                 // the session a command travels on
                 let sess = match &op {
                     Op::Arm(s, ..) | Op::Csr(s, ..) | Op::Root(s, ..) | Op::AddNoc(s, ..) | Op::UpdNoc(s, ..)
-                    | Op::AclW(s, ..) | Op::NetAdd(s, ..) | Op::NetDel(s, ..) | Op::Complete(s, ..)
+                    | Op::AclW(s, ..) | Op::Label(s, ..) | Op::Vid(s, ..) | Op::NetAdd(s, ..) | Op::NetDel(s, ..) | Op::Complete(s, ..)
                     | Op::CompleteCrash(s, ..) | Op::Revoke(s) => Some(*s),
                     _ => None,
                 };
@@ -912,6 +925,26 @@ fn run_incarnation(
                         Op::AclW(_, k, fail) => {
                             fkv.plan(if *fail { Some(0) } else { None });
                             write_acl(&ctl, sid, *k).await
+                        }
+                        Op::Label(_, k, fail) => {
+                            fkv.plan(if *fail { Some(0) } else { None });
+                            let label = if *k == 0 { String::new() } else { format!("lab{}", k) };
+                            let rep = invoke(&ctl, sid, CL_NOC, 9, false, &tlv(|w| w.utf8(&TLVTag::Context(0), &label)), false).await;
+                            match rep {
+                                Reply::Data(c, _) => noc_class(c),
+                                Reply::Status(s) => im_class(s),
+                                Reply::Err(e) => format!("err:{}", e),
+                            }
+                        }
+                        Op::Vid(_, v, fail) => {
+                            fkv.plan(if *fail { Some(0) } else { None });
+                            let vid = 0xFFF0u16 + *v as u16;
+                            let rep = invoke(&ctl, sid, CL_NOC, 12, false, &tlv(|w| w.u16(&TLVTag::Context(0), vid)), false).await;
+                            match rep {
+                                Reply::Data(..) => "data?".into(),
+                                Reply::Status(s) => im_class(s),
+                                Reply::Err(e) => format!("err:{}", e),
+                            }
                         }
                         Op::NetAdd(_, k, bc) => {
                             let (id, bc) = (ssid(*k), *bc);
@@ -1187,6 +1220,26 @@ fn branch_cases() -> Vec<(&'static str, &'static str)> {
         ("1011", "Ap:60:5,Cp:0,Rp:1,Np:77,V2,A2:60:1,E2,A2:60:1,Vp"),
         ("0111", "A1:60:5,C1:1,U1:88,A1:0:0,L1:5:0,A1:60:5,C1:0,R1:2,N1:77,A1:0:0,L2:5:0,L1:6:0"),
         ("0121", "A1:60:5,C1:0,R1:2,N1:77,T,L3:5:0,L2:5:0,E3,P,Ap:60:1,Cp:0,Rp:3,Np:71,K3:0,L3:5:0"),
+        // fabric label / VID statement: writers of the whole fabric blob.  Under a fail-safe armed for the
+        // fabric (CASE) the label is staged like the ACL; every way of ending the commissioning undoes both
+        ("0111", "A1:60:5,L1:5:0,B1:3:0,T,X"),
+        ("0111", "A1:60:5,L1:5:0,B1:3:0,A1:0:0,B1:4:0,X"),
+        ("0111", "A1:60:5,B1:3:0,L1:5:0,V1"),
+        ("0111", "A1:60:5,L1:5:0,B1:3:0,X"),
+        ("0111", "A1:60:5,L1:5:0,B1:3:0,Q1:0"),
+        ("0111", "A1:60:5,C1:1,L1:5:0,B1:3:0,U1:88,B1:4:0,T"),
+        ("0111", "A1:60:5,L1:5:0,B1:3:0,K1:0,T,X"),
+        ("0121", "A1:60:5,L1:5:0,B2:3:0,B1:3:0,B1:4:0,L2:6:0,T,X"),
+        ("0121", "B1:3:0,B2:3:0,B2:0:0,B1:0:0,B2:3:0,X"),
+        ("1011", "Ap:60:5,Bp:3:0,Cp:0,Rp:1,Np:77,Bp:3:0,B2:4:0,Lp:5:0,T"),
+        ("1011", "Ap:60:5,Cp:0,Rp:1,Np:77,B2:4:0,I2:2:0,K2:0,X"),
+        ("1011", "B1:3:1,X,B1:3:0,X"),
+        // the VID statement: stored at once unless an AddNOC / UpdateNOC of the context is pending
+        ("0111", "I1:2:0,X,A1:60:5,C1:1,U1:88,I1:3:0,T,X"),
+        ("0111", "A1:60:5,I1:2:0,T,X"),
+        ("0111", "A1:60:5,L1:5:0,I1:2:0,T,X"),
+        ("0111", "A1:60:5,B1:3:0,I1:2:0,A1:0:0"),
+        ("0121", "A1:60:5,L1:5:0,I2:2:0,I1:2:1,T"),
         // revoke without fail-safe, timer without fail-safe
         ("1011", "Vp,T,V1,T"),
         ("0011", "T,X,T"),
@@ -1232,6 +1285,10 @@ fn generate(tier: &str, seed: u64) -> Vec<String> {
     };
     exhaustive(&prof_p, &tails_p, "1011", if thorough { 5 } else { 4 }, &mut cases, &mut nid);
     exhaustive(&prof_c, &tails_c, "0111", if thorough { 5 } else { 4 }, &mut cases, &mut nid);
+    // the writers of the fabric blob under a fail-safe armed over CASE
+    let prof_b: [&str; 7] = ["A1:60:1", "L1:5:0", "B1:3:0", "I1:2:0", "C1:1", "U1:88", "W1:9:2"];
+    let tails_b = ["T", "A1:0:0", "V1", "X", "K1:0", "Q1:1", "A2:0:0"];
+    exhaustive(&prof_b, &tails_b, "0121", if thorough { 5 } else { 4 }, &mut cases, &mut nid);
     // random, all sessions and all operations
     let n_rand = if thorough { 30000 } else { 5000 };
     for _ in 0..n_rand {
@@ -1265,7 +1322,14 @@ fn generate(tier: &str, seed: u64) -> Vec<String> {
                 10..=13 => format!("R{}:{}", s, rng.below(4)),
                 14..=17 => format!("N{}:{}", s, 70 + rng.below(5)),
                 18..=19 => format!("U{}:{}", s, 80 + rng.below(5)),
-                20..=22 => format!("L{}:{}:{}", s, 1 + rng.below(6), if rng.chance(1, 8) { 1 } else { 0 }),
+                20..=21 => format!("L{}:{}:{}", s, 1 + rng.below(6), if rng.chance(1, 8) { 1 } else { 0 }),
+                22 => {
+                    if rng.chance(1, 2) {
+                        format!("B{}:{}:{}", s, rng.below(4), if rng.chance(1, 8) { 1 } else { 0 })
+                    } else {
+                        format!("I{}:{}:{}", s, 1 + rng.below(4), if rng.chance(1, 8) { 1 } else { 0 })
+                    }
+                }
                 23..=25 => format!("W{}:{}:{}", s, 1 + rng.below(5), if rng.chance(1, 2) { "-".to_string() } else { rng.below(9).to_string() }),
                 26 => format!("D{}:{}", s, rng.pick(&[7u64, 1, 2, 3])),
                 27..=31 => format!("K{}:{}", if rng.chance(1, 2) { '2' } else { s }, if rng.chance(1, 3) { 1 + rng.below(2) } else { 0 }),
